@@ -141,20 +141,25 @@ def sv_completeness(ctx) -> None:
     ctx.require(len(nested) == 1, "SV init_dark_qubits: nested interaction_matrix wrapper not found")
     w = nested[0]
     itw = Interp(prog, None, inline=lambda c, r, d: False)
-    pw = [q for q in itw.run(w) if q.status == "return"][0]
-    rows = cols = cloned = False
+    pws = [q for q in itw.run(w) if q.status == "return"]
+    ctx.require(pws, "SV init_dark_qubits: the wrapper has no returning path")
+    rows = cols = cloned = True
     idx_terms: list = []
-    for e in pw.events:
-        if e.kind == "setitem" and is_const(e.value, 0):
-            idx = strip_typed(e.target[1])
-            if idx[0] == "tuple" and len(idx[1]) == 2:
-                if idx[1][1][0] == "slice" and idx[1][0][0] != "slice":
-                    rows = True
-                    idx_terms.append(idx[1][0])
-                if idx[1][0][0] == "slice" and idx[1][1][0] != "slice":
-                    cols = True
-                    idx_terms.append(idx[1][1])
-            cloned = cloned or (strip_typed(e.target[0])[0] == "mcall" and strip_typed(e.target[0])[2] == "clone")
+    tparam = ("param", w.qualname, w.params[0]) if w.params else None
+    for pw in pws:
+        r = c = cl = False
+        for e in pw.events:
+            if e.kind == "setitem" and is_const(e.value, 0):
+                idx = strip_typed(e.target[1])
+                if idx[0] == "tuple" and len(idx[1]) == 2:
+                    if idx[1][1][0] == "slice" and idx[1][0][0] != "slice":
+                        r = True
+                        idx_terms.append(idx[1][0])
+                    if idx[1][0][0] == "slice" and idx[1][1][0] != "slice":
+                        c = True
+                        idx_terms.append(idx[1][1])
+                cl = cl or (strip_typed(e.target[0])[0] == "mcall" and strip_typed(e.target[0])[2] == "clone")
+        rows, cols, cloned = rows and r, cols and c, cloned and cl
     # the index set used by the wrapper is a closure variable of init_dark_qubits: torch.where(mask)[0]
     okind = False
     for name, val in (p.frames[0].env.items() if p.frames else []):
@@ -162,10 +167,40 @@ def sv_completeness(ctx) -> None:
             # the wrapper must index with exactly this closure variable
             okind = bool(idx_terms) and all(show(strip_typed(t)) == name for t in idx_terms)
     installed = any(e.kind == "setattr" and e.name == "interaction_matrix" and strip_typed(e.value)[0] == "localfunc" for e in p.events)
-    ok = rows and cols and cloned and okind and installed
+    # the callable the wrapper clones from is the backend's own interaction matrix, captured before it is replaced
+    # (or the Pulser data's callable that the constructor stored there, reached through the same object)
+    env0 = p.frames[0].env if p.frames else {}
+    fd = field_defs(prog, K)
+
+    def _same_object(attr_chain) -> bool:
+        # self.<a>.interaction_matrix where __init__ sets self.<a> = X and self.interaction_matrix = X.interaction_matrix
+        a = strip_typed(attr_chain)
+        if not (a[0] == "attr" and strip_typed(a[1]) == SELF):
+            return False
+        holders = [strip_typed(v) for v, ev in fd.get(a[2], []) if ev.func.name == "__init__"]
+        mats = [strip_typed(v) for v, ev in fd.get("interaction_matrix", []) if ev.func.name == "__init__"]
+        return len(holders) == 1 and len(mats) == 1 and mats[0] == ("attr", holders[0], "interaction_matrix")
+
+    fresh = True
+    for pw in pws:
+        rv = strip_typed(pw.retval) if pw.retval is not None else None
+        fr = rv is not None and rv[0] == "mcall" and rv[2] == "clone"
+        if fr:
+            src_call = strip_typed(rv[1])
+            if src_call[0] == "call" and isinstance(src_call[1], str) and env0.get(src_call[1]) is not None:
+                fr = strip_typed(env0[src_call[1]]) == ("attr", SELF, "interaction_matrix") and \
+                    [strip_typed(a) for a in src_call[2]] == [tparam]
+            elif src_call[0] == "call" and isinstance(src_call[1], str) and src_call[1].split(".")[0] == "self" and \
+                    len(src_call[1].split(".")) == 3 and src_call[1].split(".")[2] == "interaction_matrix":
+                # `self` is a closure variable of the nested function: self.<holder>.interaction_matrix(t)
+                fr = _same_object(("attr", SELF, src_call[1].split(".")[1])) and [strip_typed(a) for a in src_call[2]] == [tparam]
+            else:
+                fr = False
+        fresh = fresh and fr
+    ok = rows and cols and cloned and fresh and okind and installed
     ctx.ob("DARK-sv", "interactions removed", w.loc(), ok,
            "rows and columns of the bad atoms are zeroed on a clone of the matrix at every query time" if ok else
-           f"wrapper: rows={rows}, cols={cols}, clone={cloned}, indices from the mask={okind}, installed={installed}")
+           f"wrapper: rows={rows}, cols={cols}, clone={cloned}, every call returns a fresh clone of original(t)={fresh}, indices from the mask={okind}, installed={installed}")
     # init_dark_qubits is called by the constructor, and initial_state + SPAM is refused
     init = K.methods["__init__"]
     called = any(isinstance(n, ast.Call) and isinstance(n.func, ast.Attribute) and n.func.attr == "init_dark_qubits"
